@@ -91,7 +91,11 @@ impl LangInterpreter for Italian {
                         return Err(Error::Overlap);
                     }
                     b.put(&ds)?;
-                    let marker = self.get_morph_marker(num_func);
+                    // the marker is carried either by the whole word or by its last component
+                    let marker = match self.get_morph_marker(num_func) {
+                        MorphologicalMarker::None => ds.marker,
+                        marker => marker,
+                    };
                     if marker.is_ordinal() {
                         b.marker = marker;
                         b.freeze()
